@@ -1009,7 +1009,7 @@ impl<'a, 'b> B<'a, 'b> {
     }
 
     fn type_ref(&mut self) {
-        match self.t.weighted(&if self.opts.simple { [10, 2, 2, 2, 1, 1, 1, 1, 1, 1] } else { [10, 2, 2, 2, 1, 1, 1, 1, 1, 1] }) {
+        match self.t.weighted(&if self.opts.decl_heavy { [10, 2, 2, 2, 2, 1, 1, 1, 1, 6] } else { [10, 2, 2, 2, 1, 1, 1, 1, 1, 1] }) {
             6 => {
                 self.tag("packed-type");
                 self.kw("packed");
